@@ -30,6 +30,15 @@ type Ptr struct {
 
 func (p Ptr) IsNil() bool { return p.Obj == nil }
 
+// SymPtr is a pointer to element Idx (symbolic, in bounds) of an array of single-cell
+// elements starting at cell Base of Obj. Loads become ite chains, stores guarded updates.
+type SymPtr struct {
+	Obj  *Object
+	Base int
+	Idx  *term.T // 64-bit, proven 0 <= Idx < N
+	N    int
+}
+
 // Slice: element i lives at cell Base + (Off+i)*stride of Obj.
 type Slice struct {
 	Obj  *Object
@@ -141,11 +150,17 @@ func bitWidth(t types.Type) (w int, ok bool) {
 }
 
 func isSigned(t types.Type) bool {
+	if t == nil {
+		return false
+	}
 	b, ok := t.Underlying().(*types.Basic)
 	return ok && b.Info()&types.IsInteger != 0 && b.Info()&types.IsUnsigned == 0
 }
 
 func isFloat(t types.Type) bool {
+	if t == nil {
+		return false
+	}
 	b, ok := t.Underlying().(*types.Basic)
 	return ok && b.Info()&types.IsFloat != 0
 }
